@@ -22,6 +22,9 @@ Oracle : every turn: `generate` returns (no exception; no hang confirmed at 3x t
          too.  When a msg payload was returned at a message-text task (generate_bot_message, general/passthrough reply,
          single-call message, v2 flow-continuation `bot say` text, v2 generated value that is uttered) and the reply of that turn
          carries the call's marker, the reply contains the payload literally and neither `S3CR3T` nor (for `7*7` payloads) `49`.
+         The same holds for every *later* turn whose reply carries that marker again: the stored LLM text may resurface through
+         a variable-style bot intent (`bot $last_bot_message`, `bot $bot_message`; corpus classes `echo-*`, generated together
+         with an earlier payload placement) - resolving the variable to the stored text is by design, evaluating that text is not.
 Not asserted (DESIGN 4/C17 S): the fixed internal-error replies are well-formed messages (their frequency is reported per mode
          as label/counter `internal-error:<mode>`); a `$var` in a generated *bot intent* is resolved by design (turns in which
          a non-message position returned `secret_var` are exempt from the S3CR3T test); what a hostile answer does to the
@@ -60,7 +63,10 @@ RULE = (
     "with a dialog route each + a benign closing turn x 1-4 placements [turn, k, spec]: the k-th LLM call of the turn answers with a "
     "hostile-corpus text (raw), a template/variable payload wrapped in the format of the task at that position (msg), or a run-time "
     "mutation of the well-formed answer (mut: delete/insert/replace/duplicate/truncate/re-indent/unquote operations drawn as data); "
-    "a context message plants secret_var. An enumerated core crosses every mode x call position x corpus class in the first turn. "
+    "a context message plants secret_var. A third of the multi-turn v1 dialog cases use the stored-text shape: a payload in the LLM's "
+    "message text of turn s and a variable-style bot intent (`bot $last_bot_message` / `$bot_message` / `$last_user_message`, also as "
+    "the bot-intent line of a single-call answer) at the next-step position of a later turn. An enumerated core crosses every mode x "
+    "call position x corpus class in the first turn and the stored-text shape over mode x first route x payload x echo intent. "
     "Non-trivial = at least one placement was consumed by an LLM call that really happened (measured from the call log); distinct by "
     "the set of (mode, task at the position, call index, corpus class) reached. counters `reach|mode|task|k|kind:class` are the "
     "histogram of consumed placements over the cases that held (cases that end in a violation or in a listed known finding are "
@@ -218,6 +224,15 @@ RAW = {
     "co1-if-var": "if $secret_var\n  bot leak\nelse\n  bot other",
     "co1-bot-if": "bot a\nif True\n  bot b\nelse\n  bot c",
     "co1-bot-var-intent": "bot $secret_var",
+    "echo-last-bot-message": "bot $last_bot_message",
+    "echo-bot-message": "bot $bot_message",
+    "echo-last-user-message": "bot $last_user_message",
+    "echo-user-message": "bot $user_message",
+    "echo-last-bot-message-twice": "bot $last_bot_message\nbot $last_bot_message",
+    "echo-user-then-bot-message": "bot $last_user_message\nbot $last_bot_message",
+    "single-echo-last-bot-message": f'  ask time\nbot $last_bot_message\n  "{M} unused"',
+    "single-echo-bot-message": f'  ask time\nbot $bot_message\n  "{M} unused"',
+    "single-echo-last-user-message": f'  ask time\nbot $last_user_message\n  "{M} unused"',
     "co1-stop": "stop",
     "co1-bot-stop": "bot a\nstop\nbot b",
     "co1-comment-only": "# just a comment",
@@ -403,6 +418,19 @@ CORE_RAW = [
     "single-unquoted", "py-expr", "py-concat", "py-int", "py-open-list", "long-line", "long-words", "long-lines",
 ]
 CORE_PAYLOADS = ["jinja-expr", "jinja-var", "jinja-stmt", "dollar-var", "brace-dollar-var", "brace-expr", "brace-var"]
+ECHO_PAYLOADS = CORE_PAYLOADS + ["dollar-user-message", "jinja-user-message", "jinja-filter", "dollar-brace"]
+ECHO_INTENTS = ["echo-last-bot-message", "echo-bot-message", "echo-last-user-message", "echo-last-bot-message-twice", "echo-user-then-bot-message"]
+ECHO_SINGLE = ["single-echo-last-bot-message", "single-echo-bot-message", "single-echo-last-user-message"]
+ECHO_MODES = ("three", "multi", "passdlg", "single")  # Colang 1.0 modes with a next-step position
+
+
+def echo_places(mode, first_route, payload_class, echo_class, s=0, t=1):
+    """Placements of the two-turn shape `LLM message text with a template payload in turn s` + `variable-style bot intent that
+    makes the bot repeat a stored text in turn t` (turn t must have a route without a matching flow: next_llm / next_predef)."""
+    if mode == "single":
+        return [[s, 0, msg_spec(payload_class)], [t, 0, raw_spec(echo_class)]]
+    k_msg = 2 if first_route in ("next_llm",) else 1
+    return [[s, k_msg, msg_spec(payload_class)], [t, 1, raw_spec(echo_class)]]
 
 INS_TOKENS = ['"', "'", "\n", "\n  ", " ", "$", "{", "}", "{{", "}}", "{%", ":", "bot ", "user ", "#", "(", ")", BS, "\t", "...", "=", "and ", "or ", ",", "-", "\x00", "é", "$secret_var", "{{ 7*7 }}", "define flow ", "execute ", "if ", "while ", "flow ", "bot action: ", "bot intent: ", "user intent: "]
 
@@ -490,6 +518,7 @@ def mutate(text, ops):
 MESSAGE_TASKS = ("generate_bot_message", "general", "single_call", "v1_value", "v2_flow_continuation", "v2_intent_and_action", "v2_flow_from_name", "v2_value", "v2_passthrough")
 
 
+ECHO_VARS = ("last_bot_message", "bot_message", "last_user_message", "user_message")
 PURE_MESSAGE_TASKS = ("generate_bot_message", "general", "v1_value", "v2_value", "v2_passthrough")  # the whole answer is the text
 LLM_MARK = re.compile(r"LM\d+C\d+Z")
 
@@ -752,10 +781,20 @@ def _case(draw):
         turn = {"user": f"{mk_user(t)} {USER_TEXT[route]}", "route": route, "body": draw(pipeline.st_body()), "in": ["accept"] * len(cfg["in"]), "out": ["accept"] * len(cfg["out"])}
         turns.append(turn)
     places = {}
-    for _ in range(draw(st.sampled_from([1, 1, 2, 2, 3, 4]))):
+    if mode in ECHO_MODES and not self_rails and n >= 2 and draw(st.sampled_from([True, False, False])):
+        # stored-text shape: a template payload in the LLM's message text of turn s, a `bot $last_bot_message`-style intent later
+        s_, t_ = (0, draw(st.integers(1, n - 1)))
+        turns[s_]["route"] = draw(st.sampled_from(["llm", "next_llm", "act_llm"]))
+        turns[t_]["route"] = draw(st.sampled_from(["next_llm", "next_predef"]))
+        for tt in (s_, t_):
+            turns[tt]["user"] = f"{mk_user(tt)} {USER_TEXT[turns[tt]['route']]}"
+        echo = draw(st.sampled_from(ECHO_SINGLE if mode == "single" else ECHO_INTENTS))
+        for tt, k, spec in echo_places(mode, turns[s_]["route"], draw(st.sampled_from(sorted(PAYLOADS))), echo, s_, t_):
+            places[(tt, k)] = spec
+    for _ in range(draw(st.sampled_from([0, 1] if places else [1, 1, 2, 2, 3, 4]))):
         t = draw(st.integers(0, n - 1))
         k = draw(st.sampled_from([0, 0, 0, 1, 1, 2, 3]))
-        places[(t, k)] = draw(st_spec())
+        places.setdefault((t, k), draw(st_spec()))
     place = [[t, k, spec] for (t, k), spec in sorted(places.items())]
     return {"config": cfg, "turns": turns, "place": place, "api": draw(st.sampled_from(["sync", "sync", "async"]))}
 
@@ -791,6 +830,18 @@ def enumerate_cases(tier):
                         {"user": f"{mk_user(1)} {USER_TEXT['llm']}", "route": "llm", "body": "closing answer", "in": [], "out": []},
                     ]
                     yield {"config": cfg, "turns": turns, "place": [[0, k, spec]], "api": "sync"}
+    # stored texts: template payload in the LLM's message text of turn 0, variable-style bot intent repeating it in turn 1
+    for mode in ECHO_MODES:
+        cfg = make_cfg(mode)
+        for first in ("llm", "next_llm") if tier == "quick" else ("llm", "next_llm", "act_llm"):
+            for echo in (ECHO_SINGLE if mode == "single" else ECHO_INTENTS)[: 2 if tier == "quick" else None]:
+                for pc in ECHO_PAYLOADS if tier == "quick" else sorted(PAYLOADS):
+                    turns = [
+                        {"user": f"{mk_user(0)} {USER_TEXT[first]}", "route": first, "body": "first answer", "in": [], "out": []},
+                        {"user": f"{mk_user(1)} {USER_TEXT['next_llm']}", "route": "next_llm", "body": "second answer", "in": [], "out": []},
+                        {"user": f"{mk_user(2)} {USER_TEXT['llm']}", "route": "llm", "body": "closing answer", "in": [], "out": []},
+                    ]
+                    yield {"config": cfg, "turns": turns, "place": echo_places(mode, first, pc, echo), "api": "sync"}
     # the shipped self-check rails: hostile answers at the yes/no positions (k = 0 input check, last call output check)
     checks = ["empty", "whitespace", "check-maybe", "check-yes-bang", "check-no-yes", "jinja-expr", "nul", "long-line", "non-ascii", "lone-quote"]
     for mode in ("three", "general") if tier == "quick" else ("three", "general", "multi"):
@@ -871,27 +922,34 @@ def _check(case, obs):
         # template / variable syntax at message-text positions
         by_design = any(r["task"] not in MESSAGE_TASKS and "secret_var" in r["answer"] for r in hostile)
         bare = LLM_MARK.sub("", text)
-        for r in hostile:
+        echoed = [r for r in hostile if r["task"] not in MESSAGE_TASKS or r["task"] == "single_call"]
+        echoed = [v for r in echoed for v in ECHO_VARS if "$" + v in r["answer"]]
+        for r in [r for r in sess.reached if r["c"] is not None and r["turn"] <= t]:
             if r["task"] not in MESSAGE_TASKS or (r["kind"] != "msg" and r["task"] not in PURE_MESSAGE_TASKS):
                 continue
             marker = mk_llm(r["turn"], r["k"])
+            later = r["turn"] < t  # the stored LLM text resurfaces (e.g. through a `bot $last_bot_message` intent)
             if marker not in text:
-                if r["kind"] == "msg":
+                if r["kind"] == "msg" and not later:
                     labels.append(f"payload-not-uttered:{r['task']}")
                 continue
             payload = r["payload"] if r["kind"] == "msg" else r["answer"]
             fam = _family(payload)
-            d = dict(detail, task=r["task"], payload_class=r["c"], payload=payload, answer_kind=r["kind"], reply=text[:400])
+            if later:
+                fam = "later-turn-" + fam
+                labels.append("stored-llm-text-in-later-reply")
+                counters[f"stored|{cfg['mode']}|{r['task']}|{'+'.join(sorted(set(echoed))) or 'other'}"] = 1
+            d = dict(detail, task=r["task"], payload_class=r["c"], payload=payload, answer_kind=r["kind"], reply=text[:400], later_turn=later, from_turn=r["turn"])
             if SECRET in text and "secret_var" in payload and not by_design:
-                raise Violation(f"template-evaluated:{fam}-leaked:{r['task']}", f"{r['kind']} answer {payload[:120]!r} returned by the LLM as message text came back with the value of the context variable: reply {text[:200]!r} ({where})"[:900], d)
+                raise Violation(f"template-evaluated:{fam}-leaked:{r['task']}", f"{r['kind']} answer {payload[:120]!r} returned by the LLM as message text{' in turn %d' % r['turn'] if later else ''} came back with the value of the context variable: reply {text[:200]!r} ({where})"[:900], d)
             if "7*7" in payload and "49" in bare:
-                raise Violation(f"template-evaluated:{fam}-computed:{r['task']}", f"{r['kind']} answer {payload[:120]!r} returned by the LLM as message text was evaluated: reply {text[:200]!r} ({where})"[:900], d)
+                raise Violation(f"template-evaluated:{fam}-computed:{r['task']}", f"{r['kind']} answer {payload[:120]!r} returned by the LLM as message text{' in turn %d' % r['turn'] if later else ''} was evaluated: reply {text[:200]!r} ({where})"[:900], d)
             if r["kind"] != "msg":
                 continue
             if payload not in text:
-                raise Violation(f"template-evaluated:{fam}-altered:{r['task']}", f"payload {payload!r} returned by the LLM as message text is not in the reply literally although the reply derives from that answer: reply {text[:200]!r} ({where})"[:900], d)
-            labels.append(f"payload-literal:{r['task']}")
-            counters[f"literal|{cfg['mode']}|{r['task']}|{r['c']}"] = 1
+                raise Violation(f"template-evaluated:{fam}-altered:{r['task']}", f"payload {payload!r} returned by the LLM as message text{' in turn %d' % r['turn'] if later else ''} is not in the reply literally although the reply derives from that answer: reply {text[:200]!r} ({where})"[:900], d)
+            labels.append(f"payload-literal:{r['task']}" + (":later-turn" if later else ""))
+            counters[f"literal{'-later' if later else ''}|{cfg['mode']}|{r['task']}|{r['c']}"] = 1
     keys = set()
     for r in sess.reached:
         if r["c"] is None:
